@@ -69,6 +69,16 @@ def run(chk, drv):
                          "and random 1..80-bit; byte strings: all of length ≤ 2 (thorough: structured ≤ 3), structured ≤ 12; "
                          "scalar kinds × boundary/random values vs reference. non-trivial = value ≠ 0 / byte string non-empty; distinct by input line")
     vs = ints(chk)
+    # ---------------- the very first encodings of the process: an in-range k, then k - 2^64 (same low 64 bits, below the
+    # range) — rejection must not depend on what was encoded before (memo tables are typically filled first-come)
+    for k in [0, 1, 2, 3, 5, 127, 128, 129, 300, 16383, 16384, 1 << 31, (1 << 32) - 1, 1 << 32, 1 << 62, (1 << 63) - 1] + \
+             [chk.rng.randrange(1 << 63) for _ in range(200)]:
+        first = impl(betterproto.encode_varint, k)
+        enc = impl(betterproto.encode_varint, k - (1 << 64))
+        size = impl(betterproto.size_varint, k - (1 << 64))
+        chk.count("below_range_right_after_its_twin")
+        if isinstance(first, Exception) or not isinstance(enc, Exception) or not isinstance(size, Exception):
+            chk.fail("below-range-not-rejected", k - (1 << 64), "right after encoding %d: encode=%r size=%r" % (k, enc, size))
     # ---------------- encode / size: model vs implementation + oracles on the implementation
     lines = []
     for v in vs:
@@ -116,6 +126,17 @@ def run(chk, drv):
             betterproto.dump_varint(v, st)
             if st.getvalue() != enc:
                 chk.fail("dump-differs-from-encode", v, st.getvalue().hex())
+    # ---------------- rejection below -2^63 must not depend on what was encoded before: every in-range k above has now
+    # been through the encoder; k - 2^64 (same low 64 bits, below the range) must still be rejected, and so must the
+    # same value in an int64 message field
+    again = [v - (1 << 64) for v in vs if 0 <= v < (1 << 63)]
+    again = again[:400] + chk.rng.sample(again, min(len(again), 600))
+    for v in again:
+        enc = impl(betterproto.encode_varint, v)
+        size = impl(betterproto.size_varint, v)
+        chk.count("below_range_after_history")
+        if not isinstance(enc, Exception) or not isinstance(size, Exception):
+            chk.fail("below-range-not-rejected", v, "after encoding %d: encode=%r size=%r" % (v + (1 << 64), enc, size))
     # ---------------- decoder on arbitrary byte strings
     bss = byte_strings(chk)
     replies = drv.ask(["LOADV %s" % (b.hex() or "-") for b in bss]) if drv else None
